@@ -34,7 +34,8 @@ from checks.c09 import run_parallel, jobs
 LEVEL = "proof"
 MODULE = "Sqfs.Props.C02"
 EXTRA_THEOREMS = ("stateful_pool_is_pure", "schedule_independent_stateful", "stateful_worker_schedule_dependent",
-                  "script_schedule_independent", "failure_deterministic_partial", "failed_item_back_status_nonzero")
+                  "script_schedule_independent", "failure_deterministic_partial", "failed_item_back_status_nonzero",
+                  "run_eq_specPack", "threaded_eq_specPack", "threaded_readback", "threaded_directives")
 REQUIRED = ["Sqfs.C02." + t for t in (
     "run_eq_spec", "backlog_independent", "run_ok", "dequeue_never_internal_error", "finish_writes_everything",
     "realised_eq_serial", "schedule_independent", "jobs_independent", "times_depend_only_on_source_date_epoch",
